@@ -31,6 +31,7 @@ const W_HUNG: u64 = 128;
 const W_PEER_PINGS: u64 = 256;
 const W_LATE_POLL: u64 = 512;
 const W_IDLE_STALL: u64 = 1024;
+const W_DROP_FLUSH: u64 = 2048;
 
 const TOL: Duration = Duration::from_millis(3);
 
@@ -82,6 +83,10 @@ struct Scn {
     /// two application tasks send datagrams at the very instants of the keepalive ticks over a link that takes ONE
     /// message at a time: the Ping waits in the outbound queue with other messages before and behind it
     chatter: bool,
+    /// C08's flush clause under a configured keepalive: the application queues 6 datagrams and drops its Multiplexor
+    /// over a healthy but SLOW transport (capacity 1, the peer takes one message every 400 ms): flushing takes longer
+    /// than the keepalive timeout, and every queued frame must still arrive, in order, before the Close
+    drop_flush: bool,
 }
 
 fn od(ms: u64) -> OptionalDuration {
@@ -134,12 +139,26 @@ async fn run_async(sc: &Scn, render: bool) -> RunOutput {
         o
     };
     let cfg = SideCfg { opts: o, rng: vec![] };
-    let mut w = World::one(if sc.hung_tail { 2 } else if sc.chatter { 1 } else { UNBOUNDED_CAP }, 0, &cfg);
+    let mut w = World::one(if sc.hung_tail { 2 } else if sc.chatter || sc.drop_flush { 1 } else { UNBOUNDED_CAP }, 0, &cfg);
     let mut raw = Raw::new(1, w.sim.link.clone());
     if sc.late_start_ms > 0 {
         tokio::time::advance(Duration::from_millis(sc.late_start_ms)).await;
     }
     let t0 = Instant::now();
+    if sc.drop_flush {
+        let mux = w.mux(0);
+        w.sim.spawn("dgq.a", crate::apps::group_of(0), async move {
+            tokio::time::sleep_until(t0 + Duration::from_millis(100)).await;
+            for n in 0..6u8 {
+                let d = penguin_mux::Datagram { flow_id: 9, target_host: bytes::Bytes::from_static(b"q"), target_port: 1, data: bytes::Bytes::from(vec![n; 3]) };
+                if mux.send_datagram(d).await.is_err() {
+                    return;
+                }
+            }
+        });
+    }
+    let mut dropped_mux = false;
+    let mut next_read = t0;
     if sc.chatter {
         for c in 0..2u8 {
             let mux = w.mux(0);
@@ -204,9 +223,18 @@ async fn run_async(sc: &Scn, render: bool) -> RunOutput {
             wit |= W_PEER_PINGS;
         }
         // the peer takes in what reached it (a hung peer reads nothing any more)
-        for m in if hung_at.is_some() { Vec::new() } else { raw.pump() } {
+        // (drop-flush scenario: the peer takes one message every 400 ms)
+        let peer_reads_now = !sc.drop_flush || now >= next_read;
+        if sc.drop_flush && peer_reads_now {
+            next_read = now + Duration::from_millis(400);
+        }
+        for m in if hung_at.is_some() || !peer_reads_now { Vec::new() } else { raw.pump() } {
             if hung_at.is_some() {
                 break; // messages that arrived in the same batch after the hang are not looked at
+            }
+            if sc.drop_flush && matches!(m, RMsg::Close) {
+                // the peer completes the closing handshake
+                raw.send_msg(Message::Close);
             }
             if let RMsg::Ping = m {
                 wit |= W_PING_SEEN;
@@ -243,6 +271,12 @@ async fn run_async(sc: &Scn, render: bool) -> RunOutput {
                 hit_horizon = true;
                 break;
             }
+            if sc.drop_flush && !dropped_mux && w.sim.tasks.iter().any(|t| t.name == "dgq.a" && t.done) {
+                // everything is queued; the application lets go of the Multiplexor
+                dropped_mux = true;
+                w.drop_mux(0);
+                continue;
+            }
             if w.sim.all_done() {
                 break;
             }
@@ -259,6 +293,9 @@ async fn run_async(sc: &Scn, render: bool) -> RunOutput {
             let mut next = pong_due.iter().map(|(t, _)| *t).min().map_or(horizon, |t| t.min(horizon));
             if sc.peer_pings && enabled && hung_at.is_none() {
                 next = next.min(next_peer_ping);
+            }
+            if sc.drop_flush && ended_at.is_none() {
+                next = next.min(next_read.max(now + Duration::from_millis(1)));
             }
             let _ = IdleWait { sim: &w.sim, sleep: Box::pin(tokio::time::sleep_until(next)) }.await;
             continue;
@@ -302,6 +339,32 @@ async fn run_async(sc: &Scn, render: bool) -> RunOutput {
         fps.push(h.0);
     }
     // ------------------------------------------------------------ verdict
+    if sc.drop_flush {
+        let res = w.task_result[0].borrow().clone();
+        let dgrams: Vec<u8> = raw.got.iter().filter_map(|m| if let RMsg::Frame(crate::codec::RFrame::Datagram { data, .. }) = m { data.first().copied() } else { None }).collect();
+        let close_at = raw.got.iter().position(|m| matches!(m, RMsg::Close));
+        let last_dgram_at = raw.got.iter().rposition(|m| matches!(m, RMsg::Frame(crate::codec::RFrame::Datagram { .. })));
+        if !dropped_mux {
+            push_viol(&mut viol, "harness.no-drop", "the Multiplexor was never dropped in the drop-flush scenario".into());
+        } else if dgrams != [0, 1, 2, 3, 4, 5] || close_at.is_none() || close_at < last_dgram_at {
+            push_viol(&mut viol, "dropflush.frames-lost", format!("6 datagrams were queued before the Multiplexor was dropped over a healthy transport that takes one message every 400 ms (keepalive interval {} ms, timeout {} ms): the peer received datagrams {dgrams:?} and {} (task result {res:?}); every queued frame must be transmitted, in order, before the Close", sc.interval, sc.timeout, if close_at.is_some() { "a Close" } else { "no Close" }));
+        } else {
+            wit |= W_DROP_FLUSH;
+        }
+        if ended_at.is_none() {
+            push_viol(&mut viol, "dropflush.task-hangs", "the connection task did not end after the Multiplexor was dropped and everything was flushed".into());
+        }
+        for t in &w.sim.tasks {
+            if let Some(p) = &t.panicked {
+                push_viol(&mut viol, "panic", format!("{} panicked: {p}", t.name));
+            }
+        }
+        let mut h = Fnv::default();
+        h.str(&format!("{dgrams:?} {close_at:?} {res:?}"));
+        let out = RunOutput { blocked: false, steps: w.sim.steps, fingerprints: fps, outcome: h.0, violations: viol, witnesses: wit, horizon: false, rendering: render.then(|| log.join(" ")) };
+        w.sim.teardown();
+        return out;
+    }
     let end_now = Instant::now() - t0;
     let res = w.task_result[0].borrow().clone();
     if !enabled {
@@ -447,7 +510,7 @@ pub fn run(args: &Args) -> Report {
                 if interval == 0 && (code != 0 || prompt_tail) {
                     continue;
                 }
-                let sc = Scn { interval, timeout, rounds: hist.clone(), prompt_tail, hung_tail: false, peer_pings: false, jitter: false, late_ms: 2, half_tail: false, timeout_first: false, idle_stall_ms: 0, late_start_ms: 0, chatter: false };
+                let sc = Scn { interval, timeout, rounds: hist.clone(), prompt_tail, hung_tail: false, peer_pings: false, jitter: false, late_ms: 2, half_tail: false, timeout_first: false, idle_stall_ms: 0, late_start_ms: 0, chatter: false, drop_flush: false };
                 let label = format!("I={interval}ms T={}ms history={hist:?} then {}", if timeout == 0 { "NONE".to_string() } else { timeout.to_string() }, if prompt_tail { "prompt" } else { "silent" });
                 cases.push(Case { try_unbounded: false, max_k: u32::MAX, label, exec: Box::new(move |r| exec(&sc, r)) });
             }
@@ -463,7 +526,7 @@ pub fn run(args: &Args) -> Report {
             let total = 2usize.pow(len as u32);
             for code in 0..total {
                 let hist: Vec<Delay> = (0..len).map(|r| if (code >> r) & 1 == 0 { Delay::Zero } else { Delay::Half }).collect();
-                let sc = Scn { interval, timeout, rounds: hist.clone(), prompt_tail: false, hung_tail: true, peer_pings: false, jitter: false, late_ms: 2, half_tail: false, timeout_first: false, idle_stall_ms: 0, late_start_ms: 0, chatter: false };
+                let sc = Scn { interval, timeout, rounds: hist.clone(), prompt_tail: false, hung_tail: true, peer_pings: false, jitter: false, late_ms: 2, half_tail: false, timeout_first: false, idle_stall_ms: 0, late_start_ms: 0, chatter: false, drop_flush: false };
                 let label = format!("I={interval}ms T={}ms history={hist:?} then the peer hangs (reads nothing), send side congested", if timeout == 0 { "NONE".to_string() } else { timeout.to_string() });
                 cases.push(Case { try_unbounded: false, max_k: u32::MAX, label, exec: Box::new(move |r| exec(&sc, r)) });
             }
@@ -475,7 +538,7 @@ pub fn run(args: &Args) -> Report {
             continue;
         }
         for (hist, prompt_tail) in [(vec![], false), (vec![Delay::Zero, Delay::Zero], false), (vec![Delay::Zero, Delay::Half, Delay::Zero], true)] {
-            let sc = Scn { interval, timeout, rounds: hist.clone(), prompt_tail, hung_tail: false, peer_pings: false, jitter: false, late_ms: 2, half_tail: false, timeout_first: true, idle_stall_ms: 0, late_start_ms: 0, chatter: false };
+            let sc = Scn { interval, timeout, rounds: hist.clone(), prompt_tail, hung_tail: false, peer_pings: false, jitter: false, late_ms: 2, half_tail: false, timeout_first: true, idle_stall_ms: 0, late_start_ms: 0, chatter: false, drop_flush: false };
             let label = format!("I={interval}ms T={timeout}ms (timeout set BEFORE the interval) history={hist:?} then {}", if prompt_tail { "prompt" } else { "silent" });
             cases.push(Case { try_unbounded: false, max_k: u32::MAX, label, exec: Box::new(move |r| exec(&sc, r)) });
         }
@@ -485,7 +548,7 @@ pub fn run(args: &Args) -> Report {
         if interval == 0 {
             continue;
         }
-        let sc = Scn { interval, timeout, rounds: vec![Delay::Zero; 3], prompt_tail: true, hung_tail: false, peer_pings: false, jitter: true, late_ms: 2, half_tail: false, timeout_first: false, idle_stall_ms: 0, late_start_ms: 0, chatter: false };
+        let sc = Scn { interval, timeout, rounds: vec![Delay::Zero; 3], prompt_tail: true, hung_tail: false, peer_pings: false, jitter: true, late_ms: 2, half_tail: false, timeout_first: false, idle_stall_ms: 0, late_start_ms: 0, chatter: false, drop_flush: false };
         let label = format!("I={interval}ms T={}ms every Ping answered at once; one poll of the connection task comes 2 ms late", if timeout == 0 { "NONE".to_string() } else { timeout.to_string() });
         cases.push(Case { try_unbounded: false, max_k: 0, label, exec: Box::new(move |r| exec(&sc, r)) });
     }
@@ -495,7 +558,7 @@ pub fn run(args: &Args) -> Report {
         if interval == 0 {
             continue;
         }
-        let sc = Scn { interval, timeout, rounds: vec![Delay::Zero; 3], prompt_tail: true, hung_tail: false, peer_pings: false, jitter: false, late_ms: 2, half_tail: false, timeout_first: false, idle_stall_ms: interval * 16 / 5, late_start_ms: 0, chatter: false };
+        let sc = Scn { interval, timeout, rounds: vec![Delay::Zero; 3], prompt_tail: true, hung_tail: false, peer_pings: false, jitter: false, late_ms: 2, half_tail: false, timeout_first: false, idle_stall_ms: interval * 16 / 5, late_start_ms: 0, chatter: false, drop_flush: false };
         let label = format!("I={interval}ms T={}ms every Ping answered at once; the idle process is frozen once for {} ms with no Ping outstanding", if timeout == 0 { "NONE".to_string() } else { timeout.to_string() }, sc.idle_stall_ms);
         cases.push(Case { try_unbounded: false, max_k: 0, label, exec: Box::new(move |r| exec(&sc, r)) });
     }
@@ -505,9 +568,18 @@ pub fn run(args: &Args) -> Report {
         if interval == 0 {
             continue;
         }
-        let sc = Scn { interval, timeout, rounds: vec![Delay::Zero; 4], prompt_tail: true, hung_tail: false, peer_pings: false, jitter: false, late_ms: 2, half_tail: false, timeout_first: false, idle_stall_ms: 0, late_start_ms: 0, chatter: true };
+        let sc = Scn { interval, timeout, rounds: vec![Delay::Zero; 4], prompt_tail: true, hung_tail: false, peer_pings: false, jitter: false, late_ms: 2, half_tail: false, timeout_first: false, idle_stall_ms: 0, late_start_ms: 0, chatter: true, drop_flush: false };
         let label = format!("I={interval}ms T={}ms every Ping answered at once; two application tasks send datagrams at the instants of the ticks over a link of capacity 1", if timeout == 0 { "NONE".to_string() } else { timeout.to_string() });
         cases.push(Case { try_unbounded: false, max_k: 2, label, exec: Box::new(move |r| exec(&sc, r)) });
+    }
+    // C08's flush clause with a keepalive configured: Multiplexor dropped over a slow, healthy transport
+    for &(interval, timeout) in &cfgs2 {
+        if interval == 0 {
+            continue;
+        }
+        let sc = Scn { interval, timeout, rounds: vec![Delay::Zero; 2], prompt_tail: true, hung_tail: false, peer_pings: false, jitter: false, late_ms: 2, half_tail: false, timeout_first: false, idle_stall_ms: 0, late_start_ms: 0, chatter: false, drop_flush: true };
+        let label = format!("I={interval}ms T={}ms 6 datagrams queued, then the Multiplexor is dropped; the peer takes one message every 400 ms", if timeout == 0 { "NONE".to_string() } else { timeout.to_string() });
+        cases.push(Case { try_unbounded: false, max_k: 1, label, exec: Box::new(move |r| exec(&sc, r)) });
     }
     // the connection task is started (first polled) later than the Multiplexor was built: by a little, by more than
     // the timeout, by several timeouts; the peer answers every Ping at once, resp. never
@@ -518,7 +590,7 @@ pub fn run(args: &Args) -> Report {
         let t = if timeout == 0 { interval } else { timeout.max(interval) };
         for late in [t / 2, t + 1, 3 * t + 7] {
             for prompt_tail in [true, false] {
-                let sc = Scn { interval, timeout, rounds: vec![], prompt_tail, hung_tail: false, peer_pings: false, jitter: false, late_ms: 2, half_tail: false, timeout_first: false, idle_stall_ms: 0, late_start_ms: late, chatter: false };
+                let sc = Scn { interval, timeout, rounds: vec![], prompt_tail, hung_tail: false, peer_pings: false, jitter: false, late_ms: 2, half_tail: false, timeout_first: false, idle_stall_ms: 0, late_start_ms: late, chatter: false, drop_flush: false };
                 let label = format!("I={interval}ms T={}ms connection task started {late} ms after the Multiplexor was built; peer {}", if timeout == 0 { "NONE".to_string() } else { timeout.to_string() }, if prompt_tail { "answers every Ping at once" } else { "never answers" });
                 cases.push(Case { try_unbounded: false, max_k: 0, label, exec: Box::new(move |r| exec(&sc, r)) });
             }
@@ -540,7 +612,7 @@ pub fn run(args: &Args) -> Report {
             for code in 0..total {
                 let hist: Vec<Delay> = (0..len).map(|r| if (code >> r) & 1 == 0 { Delay::Zero } else { Delay::Half }).collect();
                 for prompt_tail in [false, true] {
-                    let sc = Scn { interval, timeout, rounds: hist.clone(), prompt_tail, hung_tail: false, peer_pings: true, jitter: false, late_ms: 2, half_tail: false, timeout_first: false, idle_stall_ms: 0, late_start_ms: 0, chatter: false };
+                    let sc = Scn { interval, timeout, rounds: hist.clone(), prompt_tail, hung_tail: false, peer_pings: true, jitter: false, late_ms: 2, half_tail: false, timeout_first: false, idle_stall_ms: 0, late_start_ms: 0, chatter: false, drop_flush: false };
                     let label = format!("I={interval}ms T={}ms history={hist:?} then {}; the peer sends its own Ping every interval throughout", if timeout == 0 { "NONE".to_string() } else { timeout.to_string() }, if prompt_tail { "prompt" } else { "silent" });
                     cases.push(Case { try_unbounded: false, max_k: u32::MAX, label, exec: Box::new(move |r| exec(&sc, r)) });
                 }
@@ -556,9 +628,9 @@ pub fn run(args: &Args) -> Report {
         fault: 0,
         total_wall: Duration::from_secs(if thorough { 1500 } else { 100 }),
         max_execs_per_case: 5_000,
-        required_witnesses: W_TIMEOUT | W_SURVIVED | W_PING_SEEN | W_DISABLED | W_CLAMPED | W_RESOLVED_AFTER_TIMEOUT | W_LATE_PONG | W_HUNG | W_PEER_PINGS | W_LATE_POLL | W_IDLE_STALL,
+        required_witnesses: W_TIMEOUT | W_SURVIVED | W_PING_SEEN | W_DISABLED | W_CLAMPED | W_RESOLVED_AFTER_TIMEOUT | W_LATE_PONG | W_HUNG | W_PEER_PINGS | W_LATE_POLL | W_IDLE_STALL | W_DROP_FLUSH,
         adaptive: thorough,
-        witness_names: &[("timeout_detected", W_TIMEOUT), ("survived_to_horizon", W_SURVIVED), ("ping_seen", W_PING_SEEN), ("keepalive_disabled_case", W_DISABLED), ("timeout_clamped_to_interval", W_CLAMPED), ("operations_resolved_after_timeout", W_RESOLVED_AFTER_TIMEOUT), ("late_pong_tolerated", W_LATE_PONG), ("peer_hung_with_congested_send_side", W_HUNG), ("peer_sends_its_own_pings", W_PEER_PINGS), ("connection_task_polled_late", W_LATE_POLL), ("idle_process_frozen_for_several_intervals", W_IDLE_STALL)],
+        witness_names: &[("timeout_detected", W_TIMEOUT), ("survived_to_horizon", W_SURVIVED), ("ping_seen", W_PING_SEEN), ("keepalive_disabled_case", W_DISABLED), ("timeout_clamped_to_interval", W_CLAMPED), ("operations_resolved_after_timeout", W_RESOLVED_AFTER_TIMEOUT), ("late_pong_tolerated", W_LATE_PONG), ("peer_hung_with_congested_send_side", W_HUNG), ("peer_sends_its_own_pings", W_PEER_PINGS), ("connection_task_polled_late", W_LATE_POLL), ("idle_process_frozen_for_several_intervals", W_IDLE_STALL), ("multiplexor_dropped_over_slow_transport_with_keepalive_flushed", W_DROP_FLUSH)],
     };
     rep.rule = "psim in virtual time: one real endpoint whose Options come from the public builders, its real task future polled by hand inside a paused-clock tokio runtime (timers fire by auto-advance, TimestampProvider reads the same clock), a raw peer answering Ping k after a scripted delay; EVERY history of R delays over {0, T/2, T, T+10 ms, never} followed by a silent or prompt tail (plus: after every history of <= 2 (thorough: R) in-time answers the peer HANGS, i.e. stops reading as well, while the application sends a burst into a transport of capacity 2, so the send side is congested when the timeout is due; plus: the peer sends Pings of its own every interval throughout, also while it does not answer ours; plus: a peer answering at once while any ONE poll of the connection task comes 2 ms late (a timer firing late), which must not look like a dead peer even when T = I), for every (I,T) pair incl. T<I (clamped), T=I, T=NONE and I=NONE; timer-vs-pong races at equal instants are scheduling choices (<= k deviations). Oracle: Ping k leaves at k*I; disabled => no Ping, no end; the task ends only with KeepaliveTimeout, at a time t with last_pong+T_eff <= t <= last_pong+T_eff+I; never when every Ping was answered within T; no silent gap > T_eff+I survives; after the timeout the pending accept/get_datagram resolve although the transport stays silent".into();
     rep.assumptions = vec!["tolerance 3 ms for tokio's millisecond timer rounding".into(), "both orders of the two builder calls are exercised (the reversed order for every (I,T) pair with three histories)".into()];
